@@ -59,7 +59,7 @@ fn p10(k: u32) -> i128 {
 /// A positive number with exactly `d` digits (1..=38 capped by i128), in one
 /// of several shapes: uniform, all nines, power of two +-1, 10^k + small,
 /// long runs of zeros.
-fn digits(rng: &mut Rng, d: u32) -> i128 {
+pub fn digits(rng: &mut Rng, d: u32) -> i128 {
     let d = d.clamp(1, 37);
     let lo = p10(d - 1);
     let span = p10(d) - lo;
@@ -144,7 +144,7 @@ fn not_multiple(c: i128, p: i128) -> i128 {
     }
 }
 
-fn int_for(rng: &mut Rng, signed_only: bool) -> IntTy {
+pub fn int_for(rng: &mut Rng, signed_only: bool) -> IntTy {
     loop {
         let t = *rng.pick(&INT_TYS);
         if !signed_only || t.signed() {
